@@ -421,4 +421,15 @@ def run(prog, chk):
                           ("self.auth_event is None", "F"), ("self.auth_event is not None", "T")])
     chk.ob("R6.handler-needs-its-context", "AuthHandler._parse_service_accept", oks, locs,
            "SERVICE_ACCEPT without a pending authentication request is refused with an SSHException before a request is built from username = None")
+    # what _parse_service_accept builds its request from is cleared only together with the user name its guard tests:
+    # a credential set to None on its own (after a successful login, say) turns a repeated SERVICE_ACCEPT into b(None)
+    from ..core.flow import attr_writes
+    for f_ in prog.all_functions():
+        if f_.cls is None or not prog.is_subclass(f_.cls.name, "AuthHandler") or f_.name == "__init__":
+            continue
+        cleared = sorted(set(t.attr for (st, t, v) in attr_writes(f_.node) if isinstance(v, ast.Constant) and v.value is None and t.attr in ("password", "private_key", "username")))
+        if cleared and "username" not in cleared:
+            chk.ob("R6.credentials-cleared-with-the-user-name", f_.qual, False, f_.loc,
+                   "sets %s to None but not username: AuthHandler._parse_service_accept still passes its `username is None` guard and encodes None" % cleared)
+    chk.ob("R6.credentials-cleared-with-the-user-name", "AuthHandler", True, "paramiko/auth_handler.py", "functions that clear a credential also clear the user name (checked per function)")
 
